@@ -604,29 +604,33 @@ def b2(ctx, cases):
 
 
 # ---------------------------------------------------------------- translator self-check (numeric)
-def compose_secant(g, ray, sph, tol, limit):
-    """the traced pieces of intersect_parametric (guard, kernel, secant step, counter test, NaN test) composed by the loop of
-    the model, one ray and a sphere, in float64; returns (distance or None for the flag, kernel evaluations)"""
+def compose_secant(g, ray, sph, tol, limit, init):
+    """the traced pieces of intersect_parametric (kernel point, secant step, counter, exits, loop condition after the pass, NaN
+    test) composed as the model composes them — first pass unconditional, then while the condition held after the
+    previous pass — one ray and a sphere, in float64; returns (distance or None for the flag, kernel evaluations)"""
     envr = {'r_0_%d_%d' % (j, k): float(ray[j][k]) for j in range(2) for k in range(3)}
     envs = dict(envr, **{'s_%d' % i: float(sph[i]) for i in range(4)})
-    d0, d1, e0, e1, it, evals = 0.0, 0.1, 150.0, 100.0, 0, 0
-    while g.evalf('g_sec_guard', {'iter_no': float(it), 'e1_old': e1, 'tol': tol}):
+    d0, d1, e0, it, evals = float(init['d0']), float(init['d1']), float(init['e0']), int(init['iter_no']), 0
+    while True:
         e1n = g.evalf('g_sphere_err', dict(envs, x=d1)); evals += 1
         point = [g.evalf('g_kernel_point_%d' % k, dict(envr, d1=d1)) for k in range(3)]
         st = {'d0': d0, 'd1': d1, 'e0': e0, 'e1': e1n}
+        ret = g.evalf('g_sec_ret', st)
         d0, d1, e0, e1 = g.evalf('g_sec_d0', st), g.evalf('g_sec_next', st), g.evalf('g_sec_e0', st), g.evalf('g_sec_e1', st)
         stop = g.evalf('g_sec_stop', {'iter_no': float(it), 'limit': float(limit)})       # a function of the counter before the pass
+        cont = g.evalf('g_sec_continue', {'iter_no': float(it), 'e1': e1n, 'tol': tol})
         it = int(g.evalf('g_sec_count', {'iter_no': float(it)}))
         if stop:
             return None, evals
-        if math.isnan(sum(point)):                     # the second in-loop exit: np.isnan(np.sum(point)) (false over R, see g_sec_stop_1)
+        if math.isnan(sum(point)):                     # the NaN exit: np.isnan(np.sum(point)) (false over R, see g_sec_stop)
             return None, evals
+        if not cont:
+            return ret, evals
         if evals > limit + 5:
             raise RuntimeError('composed secant loop does not stop')
-    return d1, evals
 
 
-def self_check_secant(ctx, g):
+def self_check_secant(ctx, g, init):
     """the COMPOSED loop (traced pieces iterated as the model iterates them) against the real intersect_parametric: same flag, same
     distance, same number of kernel evaluations — this ties the glue (which state goes into which piece) numerically"""
     rng = ctx.rng
@@ -643,7 +647,7 @@ def self_check_secant(ctx, g):
         if np.linalg.norm(d) > 0: ray = [ray[0], (d / np.linalg.norm(d)).tolist()]
         for tol, limit in ((1e-8, 60), (1e-3, 25)):
             want = guarded('parametric', 'w_parametric_counted', {'ray': ray, 'surface': sph, 'target_error': tol, 'iter_no_limit': limit})
-            got_d, got_n = compose_secant(g, ray, sph, tol, limit)
+            got_d, got_n = compose_secant(g, ray, sph, tol, limit, init)
             ok = (got_d is None) == want['flag'] and got_n == want['evals'] and (got_d is None or emit.close(got_d, want['distance'], 1e-9, 1e-12))
             n += 1
             if not ok:
@@ -702,8 +706,9 @@ def structure(ctx, info12, info11):
                        'guard: %s (the exact form `counter < cap` is the tie lemma g_rf_guard1_ok)' % info11['guard_src'])
     if info12 is not None:
         ini = info12['init']
-        ok = ini.get('errors') == [150, 100] and ini.get('distances') == [0, 0.1] and ini.get('counter') == 0
-        ctx.obligation('intersect_parametric:initial-state(errors=[150,100], distances=[0,0.1], counter=0)', ok, '%r (roles: %r)' % (ini, info12.get('roles')))
+        ok = ini.get('d0') == 0 and ini.get('d1') == 0.1 and ini.get('e0') == 150 and ini.get('iter_no') == 0 and ini.get('e1_old', 100) == 100
+        ctx.obligation('intersect_parametric:initial-state(distances 0 and 0.1, previous error 150, counter 0)', ok, '%r (held in: %r)' % (ini, info12.get('roles')))
+        ctx.obligation('intersect_parametric:first-pass-is-unconditional', bool(info12.get('first_pass_unconditional')), 'loop condition: %s' % info12.get('guard'))
         ctx.obligation('intersect_parametric:defaults(target_error=1e-8, iter_no_limit=100000)', info12['defaults'] == {'target_error': 1e-08, 'iter_no_limit': 100000}, repr(info12['defaults']))
 
 
@@ -746,7 +751,7 @@ def run(ctx):
         except Exception as e:
             ctx.obligation('translator-self-check', False, repr(e))
         try:
-            self_check_secant(ctx, g12)
+            self_check_secant(ctx, g12, info12['init'])
         except Exception as e:
             ctx.obligation('translator-self-check(composed secant loop)', False, repr(e))
         ctx.sample({'traced_definition': 'g_sec_next', 'coq': shim.coq(g12.by_name['g_sec_next'][1]), 'guard': info12['guard'], 'roles': info12['roles'],
